@@ -59,7 +59,8 @@ def gen_csv(rng, n, tier, h=0):
             e, nn, t = rng.choice(PERMS[3]); u = -1
         else:
             e, nn = rng.choice(PERMS[2]); u = -1; t = -1
-        out.append({'srid': srid, 'pts': [rand_xyz(rng, srid) for _ in range(k)], 'T': [rand_time(rng) for _ in range(k)], 'ids': [e, nn, u, t], 'sep': rng.choice([',', ';', '|', '\t']), 'h': h})
+        out.append({'srid': srid, 'pts': [rand_xyz(rng, srid) for _ in range(k)], 'T': [rand_time(rng) for _ in range(k)], 'ids': [e, nn, u, t], 'sep': rng.choice([',', ';', '|', '\t']), 'h': h,
+                    'prior': rng.choice([None, None, None, 'export', 'text'])})
     return out
 
 
@@ -70,6 +71,12 @@ def run_csv(case):
     tr = mk_track(case)
     e, nn, u, t = case['ids']
     path = os.path.join(scratch(), 'w.csv')
+    if case.get('prior'):                         # the path already holds an earlier export (of another track, or some other file): writing replaces it
+        if case['prior'] == 'export':
+            other = dict(case, pts=[[c + 1 for c in pt] for pt in case['pts']][::-1] + [case['pts'][0]], T=([x + 5 for x in case['T']] + [case['T'][0]]))
+            TrackWriter.writeToFile(mk_track(other), path, e, nn, u, t, case['sep'], case['h'])
+        else:
+            open(path, 'w').write('1;2;3;01/01/2000 00:00:00\n' * 3)
     TrackWriter.writeToFile(tr, path, e, nn, u, t, case['sep'], case['h'])
     text = open(path).read()
     back = TrackReader.readFromCsv(path, e, nn, u, t, case['sep'], h=case['h'], srid=case['srid'])
